@@ -11,7 +11,7 @@ make -s -j16 vi >/dev/null 2>"$D/.build.err" || { cat "$D/.build.err"; echo "BUI
 # the suite uses fixed names under /tmp; serialise concurrent runs
 exec 9>/var/tmp/nvbase.lock
 flock 9
-sh test.sh > "$D/.out" 2>&1
+timeout -k 5 180 sh test.sh > "$D/.out" 2>&1
 rc=$?
 ok=$(grep -c ': OK$' "$D/.out")
 echo "tests OK: $ok  rc=$rc"
